@@ -44,12 +44,16 @@ class IndexAssigner:
         self.index = index
 
     def run(self, obj: "LTItem") -> None:
-        if isinstance(obj, LTTextBox):
-            obj.index = self.index
-            self.index += 1
-        elif isinstance(obj, LTTextGroup):
-            for x in obj:
-                self.run(x)
+        # A group tree can be as deep as the page has text boxes, so it is
+        # walked with an explicit stack rather than by recursion.
+        stack = [obj]
+        while stack:
+            obj = stack.pop()
+            if isinstance(obj, LTTextBox):
+                obj.index = self.index
+                self.index += 1
+            elif isinstance(obj, LTTextGroup):
+                stack.extend(reversed(list(obj)))
 
 
 class LAParams:
@@ -668,10 +672,41 @@ class LTTextGroup(LTTextContainer[TextGroupElement]):
         super().__init__()
         self.extend(objs)
 
+    def analyze(self, laparams: LAParams) -> None:
+        # Groups nest as deep as the page has text boxes (each merge can wrap
+        # the previous group), so the tree is walked with an explicit stack
+        # rather than by recursion: members first, then every group is put in
+        # reading order, innermost groups first.
+        groups = []
+        stack: List[LTTextGroup] = [self]
+        while stack:
+            group = stack.pop()
+            groups.append(group)
+            for obj in group._objs:
+                if isinstance(obj, LTTextGroup):
+                    stack.append(obj)
+                else:
+                    obj.analyze(laparams)
+        for group in reversed(groups):
+            group.reorder(laparams)
+
+    def reorder(self, laparams: LAParams) -> None:
+        """Put the members of this group in reading order."""
+
+    def get_text(self) -> str:
+        texts = []
+        stack: List[TextGroupElement] = [self]
+        while stack:
+            obj = stack.pop()
+            if isinstance(obj, LTTextGroup):
+                stack.extend(reversed(obj._objs))
+            else:
+                texts.append(obj.get_text())
+        return "".join(texts)
+
 
 class LTTextGroupLRTB(LTTextGroup):
-    def analyze(self, laparams: LAParams) -> None:
-        super().analyze(laparams)
+    def reorder(self, laparams: LAParams) -> None:
         assert laparams.boxes_flow is not None
         boxes_flow = laparams.boxes_flow
         # reorder the objects from top-left to bottom-right.
@@ -682,8 +717,7 @@ class LTTextGroupLRTB(LTTextGroup):
 
 
 class LTTextGroupTBRL(LTTextGroup):
-    def analyze(self, laparams: LAParams) -> None:
-        super().analyze(laparams)
+    def reorder(self, laparams: LAParams) -> None:
         assert laparams.boxes_flow is not None
         boxes_flow = laparams.boxes_flow
         # reorder the objects from top-right to bottom-left.
